@@ -40,6 +40,7 @@ type Sink struct {
 	LenAtFirstFailure int
 	Boundaries        []int  // Buf length after each successful call
 	Hook              func() // called at every Write (schedule perturbation)
+	FailWith          error  // the error of the failing calls (default ErrInjected)
 }
 
 func (s *Sink) Write(p []byte) (int, error) {
@@ -60,6 +61,9 @@ func (s *Sink) Write(p []byte) (int, error) {
 			s.LenAtFirstFailure = len(s.Buf)
 		}
 		s.FailedAt = append(s.FailedAt, s.Calls)
+		if s.FailWith != nil {
+			return n, s.FailWith
+		}
 		return n, ErrInjected
 	}
 	if s.Cap > 0 && len(s.Buf)+len(p) > s.Cap {
